@@ -186,6 +186,28 @@ func VerifC04LegacySearch() {
 	verifReach("end")
 }
 
+// verifC04Attempts is the attempt bound the registry rewrites mineAttempts to.
+const verifC04Attempts = 2
+
+// verifC04AllNoncesCollide returns 1 iff for every nonce < verifC04Attempts two keys of the same
+// bucket have equal masked entry hashes (branch-free).
+func verifC04AllNoncesCollide(numBuckets uint32, keys [][]byte) uint64 {
+	h := &Header{NumBuckets: numBuckets}
+	all := uint64(1)
+	for nonce := uint32(0); nonce < verifC04Attempts; nonce++ {
+		var coll uint64
+		for i := range keys {
+			for j := 0; j < i; j++ {
+				sameBucket := verifIteU64(h.BucketHash(keys[i]) == h.BucketHash(keys[j]), 1, 0)
+				sameHash := verifIteU64(EntryHash64(nonce, keys[i])&0xffffff == EntryHash64(nonce, keys[j])&0xffffff, 1, 0)
+				coll |= sameBucket & sameHash
+			}
+		}
+		all &= coll
+	}
+	return all
+}
+
 func verifC04LegacyBuild(path string, declared uint, fileSize uint64, keys [][]byte, vals [][36]byte, order []int) error {
 	b, err := NewBuilder("", declared, fileSize)
 	verifAssert(err == nil, "C04.legacy36.seal: NewBuilder failed")
@@ -241,6 +263,7 @@ func VerifC04LegacySeal() {
 	}
 	if err != nil {
 		verifAssert(errors.Is(err, ErrCollision), "C04.legacy36.seal: Seal failed with an error other than ErrCollision")
+		verifAssert(verifC04AllNoncesCollide(uint32((declared+9999)/10000), keys) == 1, "C04.legacy36.seal: Seal reported ErrCollision although a nonce within the attempt bound separates all keys")
 		verifReach("mining-failed")
 		verifReach("end")
 		return
